@@ -18,7 +18,8 @@ EXPLANATION = ("Registries. R1 lock discipline: every access to LoggerManager::_
                "strongly; an entry is pruned exactly when expired; destroying a file sink closes its file. R6 (sorted registries, sibling "
                "agreement): insert and lookup order the registry identically, and a re-created sink is inserted in front of an expired "
                "entry of the same name because the lookup inspects the first entry of a name."
-               ' R1e: nothing that can throw more than an allocation failure runs between an explicit lock() and unlock(). R8: Frontend::remove_logger reaches the registry. R9: CsvWriter creates its own logger and removes it with the blocking form.')
+               ' R1e: nothing that can throw more than an allocation failure runs between an explicit lock() and unlock(). R8: Frontend::remove_logger reaches the registry. R9: CsvWriter creates its own logger and removes it with the blocking form.'
+               ' R6c: the sorted registries are changed only by insert-at-the-searched-position and by erase (no swap / pop_back / push_back / assignment into an element).')
 NOT_DECIDED = ("Use-after-free over all interleavings of user log calls with removal (the API contract forbids logging after "
                "removal), destruction order of shared sinks as behaviour.")
 ASSUMPTIONS = ["user code does not log through a logger after removing it (documented contract)"]
